@@ -37,6 +37,13 @@ def gen_cases(tier, seed):
         for vname, v in VARIANTS:
             c = work.mk_case("QP", [seed, i], dict(v, iteration_limit=BUDGET), variant=vname,
                              x0="restart", x0_seed=int(rng.integers(0, 1000)))
+            if i % 6 == 5:
+                # any scipy.sparse format may come back from the callbacks (banded data written as DIA, incl.
+                # hand-assembled diagonals with left-over values in the unused slots); equality rows only in
+                # half of these instances, so that the matrices reach the solver without an added slack block
+                c["fmt"] = ["diaj", "dia", "diaj", "bsr", "lil", "dok"][(i // 6 + k) % 6]
+                if (i // 6) % 2 == 0:
+                    c["gopts"] = {"row_force": ["eq"] * 12}
             cases.append(c)
             k += 1
     # stored witness of the open finding KF-C03-ILLCOND-ACTIVE-SET (always exercised)
@@ -110,6 +117,9 @@ def run_case(case):
     v = case["variant"]
     key = {"variant": v, "family": case["fam"]}
     res = {"viol": [], "ctr": {"runs": 1, "runs_" + v: 1, "family_" + case["fam"]: 1}}
+    if p.fmt not in ("coo", "csr", "csc"):
+        res["ctr"]["runs_fmt_" + p.fmt] = 1
+        res["ctr"]["runs_other_formats_equality_rows_only"] = int(bool(case.get("gopts")))
     if out.result is None:
         res["viol"].append({"what": "solve raised %s (%s) on a problem of the stated class, variant %s"
                                     % (type(out.exc).__name__ if out.exc else type(out.construct_exc).__name__,
@@ -150,12 +160,13 @@ def finalize(agg, tier):
     return {
         "rule": "strictly convex QPs (dense n<=12 with cond(Q)<=100 and full-row-rank Jacobian with singular values in "
                 "[0.5,3] on the non-fixed columns; banded n=50..300 with disjoint-support rows) built around a feasible "
-                "point, any mix of free/lower/upper/boxed/fixed variables and eq/ge/le/ranged rows, random in-bounds start "
+                "point, any mix of free/lower/upper/boxed/fixed variables and eq/ge/le/ranged rows, every sixth instance with callbacks returning DIA (also hand-assembled, with non-finite left-overs in the unused slots) / BSR / LIL / DOK matrices and half of those with equality rows only, random in-bounds start "
                 "per run, each instance under 7 configurations (default, Newton Full/ActiveSet, step solver "
                 "Standard/Extended/Asymmetric, Exact control); class membership is measured per instance; "
                 "non-trivial = run ended Optimal and passed the KKT oracle; distinct by (instance, variant)",
         "floors": {"runs": 800, "optimal": 800, "optimal_with_active_bounds": 200, "family_BAND": 20,
-                   "runs_control=Exact": 100, "runs_newton=Full": 100},
+                   "runs_control=Exact": 100, "runs_newton=Full": 100, "runs_fmt_diaj": 20,
+                   "runs_other_formats_equality_rows_only": 20},
         "extra": {"iteration_budget": BUDGET},
         "assumptions": ["budget 5000 iterations as named in the property; the iteration histogram and per-variant maxima "
                         "in this file show the drift margin"],
